@@ -39,7 +39,7 @@ func mixSeed(seed int64, stream string, caseNo int) uint64 {
 
 var alphaPlain = []string{"a", "b", "c", "xyz", "0", "42", " ", "Hello", "-", "_"}
 var alphaCSV = []string{"\x7f", "\"\xe9", "\t", "\"", "\"\"", ",", "\r", "\n", "\r\n", "\x00", "\xff", "\xc3", "é", "世界", "a", "b,c", " ", "x\"y"}
-var alphaHTML = []string{"<", ">", "&", "\"", "'", "+", "&amp;", "&lt;", "&#34;", "&#x7c;", "<script>", "</td>", "<b>", "\n", "a", "b c", "é", "`", "=", "/", "<!--", "-->", "]]>", "{{.}}", "\x00"}
+var alphaHTML = []string{"\xff", "caf\xe9", "\xe4\xb8", "\r", "\r\n", "\ufffe", "\ufdd0", "\u0085", "\u009f", "\ufeff", "\ufffd", "\x7f", "\x01", "<", ">", "&", "\"", "'", "+", "&amp;", "&lt;", "&#34;", "&#x7c;", "<script>", "</td>", "<b>", "\n", "a", "b c", "é", "`", "=", "/", "<!--", "-->", "]]>", "{{.}}", "\x00"}
 var alphaMD = []string{"\xff", "caf\xe9", "\xe4\xb8", "\x7f", "\t", "|", "\\", "\\|", "\n", "<", ">", "&", "\"", "'", "&#x7c;", "&amp;", "a", "b", " ", "  ", "世", "*x*", "`", "---", ":", "é", "x\\"}
 
 // multi-line mixes of narrow and wide runs (a later line with fewer runes but more cells, etc.)
